@@ -265,7 +265,7 @@ impl SubCheckT for WellFormed {
     const REPLAY_ATTEMPTS: u32 = 20;
     const RULE: &'static str = "C03-style histories on the compressing builder (unique tables of 1..32 slots or default), with the extra op Rebuild(i) = re-derive entry i from its truth table as a disjunction of cubes in a shuffled variable order. For every node reachable from every result, with left/right variable sets taken from the harness's own in-order numbering of the vtree: primes non-false, pairwise disjoint, exhaustive (truth tables); variables syntactically reachable in primes within the left set and in subs within the right set; subs pairwise distinct (pointer and function); no {(T,s)}, no {(p,T),(!p,F)}, binary nodes with distinct children; and equal truth tables => pointer equality (results, rebuilds and negations); the first 12 decision-node results of each history are additionally conditioned on every (variable, value) and the cofactors are held to the same function / node / canonicity checks. Non-trivial: a non-binary decision node with >=3 elements or decision nodes at >=2 vtree positions";
     fn cases(tier: Tier) -> u32 {
-        tier.pick(3000, 100_000)
+        tier.pick(12_000, 150_000)
     }
     fn strategy(_tier: Tier) -> BoxedStrategy<Case> {
         (
